@@ -24,6 +24,7 @@ import (
 	"os"
 	"os/exec"
 	"path/filepath"
+	"regexp"
 	"sort"
 	"strconv"
 	"strings"
@@ -36,10 +37,10 @@ func init() { props["C05"] = runC05 }
 // ------------------------------------------------------------ Lean validator process
 
 type c05Drv struct {
-	cmd *exec.Cmd
-	in  *bufio.Writer
-	out *bufio.Reader
-	ok  bool
+	cmd   *exec.Cmd
+	in    *bufio.Writer
+	out   *bufio.Reader
+	ok    bool
 	stdin io.WriteCloser
 }
 
@@ -168,6 +169,11 @@ func c05Sig(f [2]string) string {
 			sig += ":<empty-entry-name>"
 		} else if len(w) > 1 {
 			sig += ":" + c05Digits.Replace(w[1])
+			if strings.HasSuffix(f[1], "(referenced)") {
+				sig += ":referenced"
+			} else if strings.HasSuffix(f[1], "(unreferenced)") {
+				sig += ":unreferenced"
+			}
 		}
 	case "rid-resolves":
 		if len(w) > 0 {
@@ -179,8 +185,11 @@ func c05Sig(f [2]string) string {
 			sig += ":" + c05Digits.Replace(strings.TrimSuffix(w[0], ":")) + "->" + c05Digits.Replace(w[3])
 		}
 	}
-	return sig
+	// one class for all image formats
+	return c05MediaExt.ReplaceAllString(sig, "/media/image.*")
 }
+
+var c05MediaExt = regexp.MustCompile(`/media/image\.[A-Za-z]+`)
 
 // c05RunHistory executes a history, validating after every successful h.save.
 // With rec != nil the transcript is recorded and failures are reported.
@@ -464,8 +473,21 @@ func c05BkOp(r *Run, st *c05BkState, line string) string {
 func c05Bookkeeping(r *Run, rng *Rng, rounds int) {
 	st := &c05BkState{}
 	wsCT := "application/vnd.openxmlformats-officedocument.spreadsheetml.worksheet+xml"
+	// Override already present (a package from another producer), Default extensions not:
+	// addContentTypePart must still register the extensions its kind can produce
+	ovrDrawing := hx("/xl/drawings/drawing1.xml") + "|" + hx("application/vnd.openxmlformats-officedocument.drawing+xml")
+	ovrComments := hx("/xl/comments1.xml") + "|" + hx("application/vnd.openxmlformats-officedocument.spreadsheetml.comments+xml")
+	for _, kind := range []string{"drawings", "comments", "table"} {
+		c05BkOp(r, st, "bk.new")
+		c05BkOp(r, st, "bk.setovr "+ovrDrawing+" "+ovrComments)
+		c05BkOp(r, st, "bk.addct 1 "+hx(kind))
+		c05BkOp(r, st, "bk.addct 2 "+hx(kind))
+	}
 	for round := 0; round < rounds; round++ {
 		c05BkOp(r, st, "bk.new")
+		if round%3 == 1 {
+			c05BkOp(r, st, "bk.setovr "+ovrDrawing+" "+ovrComments)
+		}
 		n := rng.Range(5, 40)
 		for i := 0; i < n; i++ {
 			switch x := rng.Intn(100); {
@@ -695,4 +717,3 @@ func c05Replay(r *Run, d *c05Drv, path string) {
 		}
 	}
 }
-
